@@ -341,6 +341,23 @@ func (w *gwWorld) execBucket(s gwStep) (map[string]any, bool) {
 			syms = append(syms, strings.TrimPrefix(n, w.prefix))
 		}
 		return map[string]any{"status": "ok", "names": syms, "paging": paging}, true
+	case "ListBucketsFrom":
+		max := 1000
+		fmt.Sscan(fmt.Sprint(a["max"]), &max)
+		r := cl.Do(s3c.Req{Method: "GET", Path: "/", Query: []s3c.KV{{K: "max-buckets", V: fmt.Sprint(max)},
+			{K: "prefix", V: w.prefix}, {K: "continuation-token", V: w.prefix + str(a, "tok")}}})
+		if !r.OK() {
+			return simple(r), true
+		}
+		var d struct {
+			Names []string `xml:"Buckets>Bucket>Name"`
+		}
+		xml.Unmarshal(r.Body, &d)
+		syms := []any{}
+		for _, n := range d.Names {
+			syms = append(syms, strings.TrimPrefix(n, w.prefix))
+		}
+		return map[string]any{"status": "ok", "names": syms}, true
 	case "PutSetting":
 		return simple(w.putSetting(cl, b, str(a, "s"), str(a, "doc"))), true
 	case "GetSetting":
@@ -454,6 +471,27 @@ func compareBucketReply(s gwStep, got map[string]any) []gwDiff {
 	case "GetSetting":
 		if wd, gd := str(s.R, "doc"), str(got, "doc"); wd != gd {
 			ds = append(ds, gwDiff{"doc", docClass(wd), docClassVs(gd, wd)})
+		}
+	case "ListBucketsFrom":
+		// one page: the same names in the same order
+		ws, hs := fmt.Sprint(s.R["names"]), fmt.Sprint(got["names"])
+		if s.R["names"] == nil {
+			ws = "[]"
+		}
+		if ws != hs {
+			cls := "other-order-or-extra"
+			wl, _ := s.R["names"].([]any)
+			hl, _ := got["names"].([]any)
+			hset := map[string]bool{}
+			for _, n := range hl {
+				hset[fmt.Sprint(n)] = true
+			}
+			for _, n := range wl {
+				if !hset[fmt.Sprint(n)] {
+					cls = "bucket-after-token-not-listed"
+				}
+			}
+			ds = append(ds, gwDiff{"page-after-token", "page", cls})
 		}
 	case "ListBucketsB":
 		var want []string
